@@ -29,12 +29,38 @@ func (nopLogger) Info(v ...interface{})                  {}
 func (nopLogger) Infof(format string, v ...interface{})  {}
 func (nopLogger) Warn(v ...interface{})                  {}
 func (nopLogger) Warnf(format string, v ...interface{})  {}
-func (nopLogger) Error(v ...interface{})                 {}
-func (nopLogger) Errorf(format string, v ...interface{}) {}
+func (nopLogger) Error(v ...interface{})                 { capture(fmt.Sprint(v...)) }
+func (nopLogger) Errorf(format string, v ...interface{}) { capture(fmt.Sprintf(format, v...)) }
 func (nopLogger) Panic(v ...interface{})                 { panic(fmt.Sprint(v...)) }
 func (nopLogger) Panicf(format string, v ...interface{}) { panic(fmt.Sprintf(format, v...)) }
 func (nopLogger) Fatal(v ...interface{})                 { panic(fmt.Sprint(v...)) }
 func (nopLogger) Fatalf(format string, v ...interface{}) { panic(fmt.Sprintf(format, v...)) }
+
+var (
+	errMu   sync.Mutex
+	errRing []string
+)
+
+func capture(m string) {
+	errMu.Lock()
+	if len(m) > 400 {
+		m = m[:400] + "..."
+	}
+	errRing = append(errRing, m)
+	if len(errRing) > 40 {
+		errRing = errRing[len(errRing)-40:]
+	}
+	errMu.Unlock()
+}
+
+// TakeErrors returns and clears the client's error-level log lines captured since the last call.
+func TakeErrors() []string {
+	errMu.Lock()
+	defer errMu.Unlock()
+	out := errRing
+	errRing = nil
+	return out
+}
 
 var (
 	initOnce sync.Once
@@ -69,7 +95,14 @@ func InitClient() {
 			panic(err)
 		}
 		defer os.Remove(path)
+		// the client builds a zap logger on stdout/stderr during initialisation and complains about the empty server list
+		devnull, _ := os.OpenFile(os.DevNull, os.O_WRONLY, 0)
+		so, se := os.Stdout, os.Stderr
+		if os.Getenv("VERIF_LOG") == "" && devnull != nil {
+			os.Stdout, os.Stderr = devnull, devnull
+		}
 		client.InitPath(path)
+		os.Stdout, os.Stderr = so, se
 		log.SetLogger(nopLogger{})
 		if os.Getenv("VERIF_LOG") != "" {
 			log.Init()
@@ -107,6 +140,8 @@ type Options struct {
 	NoXA    bool
 	NoAT    bool
 	Wire    bool
+	// Concurrent: several client threads run against the database (lock waits really wait)
+	Concurrent bool
 }
 
 // NewEnv builds a fresh closed system with the given DDL applied (undo_log is always created).
@@ -118,6 +153,7 @@ func NewEnv(ddl []string, opt Options) (*Env, error) {
 	if opt.Version != "" {
 		srv.Version = opt.Version
 	}
+	srv.SequentialWaits = !opt.Concurrent
 	memdb.Register(srv)
 	params := opt.Params
 	if params == "" {
